@@ -387,7 +387,10 @@ def check_import(ctx, fr):
     mvc = next((c for c in ast.walk(lo) if isinstance(c, ast.Call) and ast.unparse(c.func) == "move"), None)
     ctx.need(mvc is not None and len(mvc.args) == 3, "from_pyzx: outputs are not routed with move")
     src = mvc.args[1]
-    ok = isinstance(src, ast.Call) and ast.unparse(src.func) == "scan.index" and len(src.args) == 2 and ast.unparse(src.args[1]) == tv and ast.unparse(mvc.args[2]) == tv
+    nbv = next((ast.unparse(s.targets[0].elts[0]) for s in lo.body if isinstance(s, ast.Assign) and isinstance(s.targets[0], ast.Tuple) and len(s.targets[0].elts) == 1 and "neighbors" in ast.unparse(s.value)), "node")
+    mvst = next((s for s in lo.body if isinstance(s, ast.Assign) and s.value is mvc), None)
+    ok = isinstance(src, ast.Call) and ast.unparse(src.func) == "scan.index" and len(src.args) == 2 and ast.unparse(src.args[1]) == tv and ast.unparse(mvc.args[2]) == tv \
+        and ast.unparse(src.args[0]) == nbv and ast.unparse(mvc.args[0]) == "scan" and mvst is not None and ast.unparse(mvst.targets[0]) in ("(scan, swaps)", "scan, swaps")
     ctx.ob("R17.7", ZX + ".Diagram.from_pyzx:output-leg", ok, found=ast.unparse(mvc), required="the leg is searched among the positions >= target (scan.index(node, target)): the positions before are outputs already placed, "
            "possibly legs of the same spider", mod=ZX, node=mvc, sig="output-leg")
     body = [ast.unparse(s) for s in lo.body]
@@ -401,6 +404,8 @@ def check_import(ctx, fr):
     ctx.need(dg is not None, "from_pyzx: the output loop does not extend the diagram")
     shape.match(ctx, "R17.7", ZX + ".Diagram.from_pyzx:output-layer", dg.value, "diagram >> swaps >> Id(target) @ hadamard @ Id(len(scan) - target - 1)", {tv: "target"}, mod=ZX, node=dg, sig="output-layer",
                 required="the leg is moved to its output position, then the Hadamard of its edge is applied there")
+    rr = [r_ for r_ in fr.body if isinstance(r_, ast.Return)]
+    shape.match(ctx, "R17.7", ZX + ".Diagram.from_pyzx:result", rr[-1].value if rr else None, "diagram", {}, mod=ZX, node=fr, sig="from-pyzx-result", required="the diagram built is the one returned")
     # refusals (R17.3)
     g = CFG(fr)
     start = next(s for s in fr.body if isinstance(s, ast.Assign) and "Id(len(graph.inputs))" in ast.unparse(s.value))
